@@ -245,18 +245,39 @@ func parseExternal(m *cell.Cell) (wc int8, addr [32]byte, init *cell.Cell, body 
 	if c.u(4) != 0 {
 		return 0, addr, nil, nil, fmt.Errorf("import fee not zero")
 	}
+	// init:(Maybe (Either StateInit ^StateInit)) body:(Either X ^X): both layouts of either field are valid messages
 	if c.u(1) == 1 {
-		if c.u(1) != 1 {
-			return 0, addr, nil, nil, fmt.Errorf("inline init not expected")
+		if c.u(1) == 1 {
+			init = c.ref()
+		} else {
+			// inline StateInit: split_depth:(Maybe (## 5)) special:(Maybe TickTock) code:(Maybe ^Cell) data:(Maybe ^Cell) library:(HashmapE 256 SimpleLib)
+			var ib bits.Bits
+			var irefs []*cell.Cell
+			bit := func() bool { b := c.take(1); ib = append(ib, b...); return len(b) == 1 && b[0] }
+			if bit() {
+				ib = append(ib, c.take(5)...)
+			}
+			if bit() {
+				ib = append(ib, c.take(2)...)
+			}
+			for k := 0; k < 3; k++ {
+				if bit() {
+					irefs = append(irefs, c.ref())
+				}
+			}
+			if c.err == nil {
+				init, c.err = cell.New(ib.Bytes(), len(ib), irefs, false)
+			}
 		}
-		init = c.ref()
 	}
-	if c.u(1) != 1 {
-		return 0, addr, nil, nil, fmt.Errorf("inline body not expected")
-	}
-	body = c.ref()
-	if c.err == nil && c.p != len(c.b) {
-		c.err = fmt.Errorf("trailing bits in the envelope")
+	if c.u(1) == 1 {
+		body = c.ref()
+		if c.err == nil && c.p != len(c.b) {
+			c.err = fmt.Errorf("trailing bits in the envelope")
+		}
+	} else if c.err == nil {
+		rest := c.b[c.p:]
+		body, c.err = cell.New(rest.Bytes(), len(rest), c.refs[c.r:], false)
 	}
 	return wc, addr, init, body, c.err
 }
@@ -399,6 +420,8 @@ func checkMessage(c *enum.Ctx, s spec, w *wallet.Wallet, msgCell *cell.Cell, wan
 	}
 	if (init != nil) != expectInit {
 		c.Fail("envelope-init:"+tag, "init present=%v want %v", init != nil, expectInit)
+	} else if init != nil && init.ReprHash() != w.GetAddress().Address {
+		c.Fail("envelope-init-hash:"+tag, "the attached state-init hashes to %x, the wallet address is %x", init.ReprHash(), w.GetAddress().Address)
 	}
 	p, err := parseBody(s.ver, body)
 	if err != nil {
@@ -561,10 +584,11 @@ func harnesses(r *fw.Run) []fw.HarnessSpec {
 
 	add("build-and-parse", r.Pick(2, 3), func(c *enum.Ctx) {
 		s := buildSpec(c, seed)
-		path := c.ChooseFree(2) // 0: CreateMessageBody + envelope, 1: RawSendV2 through the blockchain interface
-		c.Case([]byte(fmt.Sprintf("%s/%d", s.desc, path)), true)
-		c.Sample(map[string]any{"case": s.desc, "path": []string{"CreateMessageBody", "RawSendV2"}[path]})
-		c.Label("%s path=%d", s.desc, path)
+		path := c.ChooseFree(2)          // 0: CreateMessageBody + envelope, 1: RawSendV2 through the blockchain interface
+		withInit := c.ChooseFree(2) == 1 // the optional state-init of the statement: attached or not
+		c.Case([]byte(fmt.Sprintf("%s/%d/%v", s.desc, path, withInit)), true)
+		c.Sample(map[string]any{"case": s.desc, "path": []string{"CreateMessageBody", "RawSendV2"}[path], "state_init": withInit})
+		c.Label("%s path=%d state-init attached=%v", s.desc, path, withInit)
 		c.Try("panic:build:"+s.ver.ToString(), func() {
 			bc := &chain{}
 			w, err := wallet.New(key(s.keySeed), s.ver, bc, s.options()...)
@@ -579,6 +603,13 @@ func harnesses(r *fw.Run) []fw.HarnessSpec {
 			}
 			over := len(s.msgs) > maxMsgs(s.ver)
 			until := time.Unix(int64(s.validUntil), 0)
+			var init *tlb.StateInit
+			if withInit {
+				if init, err = w.StateInit(); err != nil || init == nil {
+					c.Fail("StateInit-error:"+s.ver.ToString(), "Wallet.StateInit: %v", err)
+					return
+				}
+			}
 			var msgCell *cell.Cell
 			if path == 0 {
 				body, err := w.CreateMessageBody(wallet.MessageConfig{Seqno: s.seqno, ValidUntil: until, V5MsgType: wallet.V5MsgTypeSignedExternal}, s.msgs...)
@@ -593,7 +624,7 @@ func harnesses(r *fw.Run) []fw.HarnessSpec {
 					c.Outcome("over-limit-body-built") // only sends must be refused (statement); recorded
 					return
 				}
-				em, err := ton.CreateExternalMessage(w.GetAddress(), body, nil, tlb.VarUInteger16{})
+				em, err := ton.CreateExternalMessage(w.GetAddress(), body, init, tlb.VarUInteger16{})
 				if err != nil {
 					c.Fail("CreateExternalMessage", "%v", err)
 					return
@@ -609,7 +640,7 @@ func harnesses(r *fw.Run) []fw.HarnessSpec {
 					return
 				}
 			} else {
-				_, err := w.RawSendV2(context.Background(), s.seqno, until, raw, nil, 0)
+				_, err := w.RawSendV2(context.Background(), s.seqno, until, raw, init, 0)
 				if over {
 					if err == nil || len(bc.payloads) != 0 {
 						c.Fail("over-limit-send-accepted:"+s.ver.ToString(), "RawSendV2 with %d messages (limit %d) was not refused (err=%v, payloads sent=%d)", len(s.msgs), maxMsgs(s.ver), err, len(bc.payloads))
@@ -628,7 +659,7 @@ func harnesses(r *fw.Run) []fw.HarnessSpec {
 				}
 				msgCell = roots[0]
 			}
-			checkMessage(c, s, &w, msgCell, want, false)
+			checkMessage(c, s, &w, msgCell, want, withInit)
 			c.Outcome("checked")
 		})
 	})
@@ -658,10 +689,31 @@ func harnesses(r *fw.Run) []fw.HarnessSpec {
 			return
 		}
 		msg := roots[0]
+		// the grid addresses the signed body as a cell of its own: (Either X ^X) with the right branch, the layout tongo
+		// produces today. An inline body is a legitimate layout too; the grid then has no cell to address and says so.
+		_, _, _, pbody, perr := parseExternal(msg)
+		if perr != nil {
+			c.Fail("envelope:"+ver.ToString(), "payload is not an external-in message: %v", perr)
+			return
+		}
+		inRef := len(msg.Refs) > 0 && pbody == msg.Refs[len(msg.Refs)-1]
+		if !inRef {
+			c.Case([]byte(fmt.Sprintf("tamper/%v/inline", ver)), true)
+			c.Outcome("body-inline:grid-not-applicable")
+			return
+		}
 		body := msg.Refs[len(msg.Refs)-1]
 		target := body
 		if where == 1 {
+			if len(body.Refs) == 0 {
+				c.Skip()
+				return
+			}
 			target = body.Refs[0]
+		}
+		if target.BitLen == 0 {
+			c.Skip()
+			return
 		}
 		bit := c.ChooseFree(target.BitLen)
 		c.Case([]byte(fmt.Sprintf("tamper/%v/%d/%d", ver, where, bit)), true)
